@@ -99,7 +99,10 @@ def rule_remove(ctx):
     ps = q.stmt(pops[0])
     txv, hv = norm(ps.targets[0]), norm(pops[0].args[0])
     outer = [p for p, _f in q.enclosing_chain(ps, f.node) if isinstance(p, ast.For)][0]
-    okit = norm(outer.iter) in ('set(txs).difference(all_hashes)', 'set(self.txs).difference(all_hashes)')
+    it = outer.iter
+    okit = isinstance(it, ast.Call) and isinstance(it.func, ast.Attribute) and it.func.attr == 'difference' and len(it.args) == 1 and \
+        norm(it.args[0]) == f.params[1] and isinstance(it.func.value, ast.Call) and norm(it.func.value.func) == 'set' and \
+        ctx.res.canon(it.func.value.args[0], f) == 'self.txs'
     ctx.check(okit, 'C08.REMOVEPAIR', ctx.key(f, outer, 'vanished transactions'),
               'exactly the transactions no longer listed by the daemon are removed',
               f'the removal loop does not range over txs - all_hashes: {norm(outer.iter)}', loc=ctx.loc(f, outer))
@@ -131,7 +134,9 @@ def rule_remove(ctx):
         if ok:
             o1, _ = pr.once_per_iteration(cfg, lp, [cfg.node(q.stmt(rms[0]))])
             conds = pr.control_conditions(dels[0], lp)
-            ok = o1 and len(conds) == 1 and conds[0][1] and norm(conds[0][0]) in (f'not hashXs[{hx}]', f'not self.hashXs[{hx}]')
+            t0 = conds[0][0] if len(conds) == 1 else None
+            ok = o1 and len(conds) == 1 and conds[0][1] and isinstance(t0, ast.UnaryOp) and isinstance(t0.op, ast.Not) and \
+                isinstance(t0.operand, ast.Subscript) and ctx.res.canon(t0.operand.value, f) == 'self.hashXs' and norm(t0.operand.slice) == hx
         p = pr.path_avoiding(cfg, [cfg.node(ps)], [cfg.node(outer)], {cfg.node(lp)} | pr.outside_loop(cfg, outer))
         ok = ok and p is None
     ctx.check(ok, 'C08.REMOVEPAIR', ctx.key(f, outer, 'index cleaned'),
@@ -173,10 +178,16 @@ def rule_merge(ctx):
               loc=ctx.loc(f, lp))
     n += 1
     # every new hash is fetched: chunks over all new hashes, a task per chunk
-    nh = [s for s in f.own_nodes() if isinstance(s, ast.Assign) and norm(s.targets[0]) == 'new_hashes']
-    ch = [s for s in f.own_nodes() if isinstance(s, ast.For) and isinstance(s.iter, ast.Call) and norm(s.iter.func) == 'chunks']
-    ok2 = len(nh) == 1 and norm(nh[0].value) in ('list(all_hashes.difference(txs))', 'list(all_hashes.difference(self.txs))') and len(ch) == 1 and \
-        norm(ch[0].iter.args[0]) == 'new_hashes' and any(isinstance(c, ast.Call) and norm(c.func).endswith('.spawn') for c in walk_own(ch[0]))
+    ch = [s for s in f.own_nodes() if isinstance(s, ast.For) and isinstance(s.iter, ast.Call) and q.callee_name(ctx, f, s.iter).split('.')[-1] == 'chunks']
+    ok2 = False
+    if len(ch) == 1 and isinstance(ch[0].iter.args[0], ast.Name):
+        nd = df.defs(f).get(ch[0].iter.args[0].id, [])
+        if len(nd) == 1:
+            v = nd[0][1]
+            inner = v.args[0] if isinstance(v, ast.Call) and norm(v.func) in ('list', 'sorted', 'tuple') and v.args else v
+            ok2 = isinstance(inner, ast.Call) and isinstance(inner.func, ast.Attribute) and inner.func.attr == 'difference' and \
+                norm(inner.func.value) == f.params[1] and len(inner.args) == 1 and ctx.res.canon(inner.args[0], f) == 'self.txs' and \
+                any(isinstance(c, ast.Call) and norm(c.func).endswith('.spawn') for c in walk_own(ch[0]))
     ctx.check(ok2, 'C08.MERGE', ctx.key(f, None, 'all new hashes fetched'),
               'every listed hash not yet in the pool is fetched, in batches', 'not every new hash is fetched', loc=ctx.loc(f, f.node))
     return n + 1
@@ -236,7 +247,14 @@ def rule_fee(ctx):
               'the fee is not max(0, inputs - outputs)', loc=ctx.loc(f, f.node))
     # an input value comes from the DB lookup, else from the mempool parent's out_pairs at that index
     src = [s for s in f.own_nodes() if isinstance(s, ast.Assign) and 'out_pairs' in norm(s.value) and isinstance(s.value, ast.Subscript)]
-    ok2 = len(src) == 1 and norm(src[0].value) in ('txs[prev_hash].out_pairs[prev_index]', 'self.txs[prev_hash].out_pairs[prev_index]')
+    ok2 = False
+    if len(src) == 1:
+        v = src[0].value          # <txs>[<prev hash>].out_pairs[<prev index>]
+        pv = [s for s in f.own_nodes() if isinstance(s, ast.Assign) and isinstance(s.targets[0], ast.Tuple) and len(s.targets[0].elts) == 2
+              and isinstance(s.value, ast.Name)]
+        names = [norm(e) for e in pv[0].targets[0].elts] if len(pv) == 1 else [None, None]
+        ok2 = isinstance(v.value, ast.Attribute) and v.value.attr == 'out_pairs' and isinstance(v.value.value, ast.Subscript) and \
+            ctx.res.canon(v.value.value.value, f) == 'self.txs' and norm(v.value.value.slice) == names[0] and norm(v.slice) == names[1]
     ctx.check(ok2, 'C08.FEE', ctx.key(f, src[0] if src else None, 'parent output'), 'an unconfirmed input takes (hashX, value) from its parent\'s output at that index',
               'an unconfirmed input is not resolved from txs[prev_hash].out_pairs[prev_index]', loc=ctx.loc(f, f.node))
     return 2
